@@ -27,6 +27,17 @@ CHECKS = {
         design="5/C17",
         technique="Coq proof (induction over the series, refinement of the lag buffer to an unbounded history) + in-Coq binary64 correspondence",
         note="Default sim_mean of armodel_residual (numpy.nanmean) is glue computed by the harness."),
+    "C19": dict(
+        text=("Theorems for ALL 1 <= nbatch <= nelements: the concatenation of the batches in order is exactly "
+              "0..n-1 (hence contiguous, ordered, disjoint, covering), sizes differ by at most one, rejected "
+              "calls, SiteBatch.search returns the batch holding the site (any duplicate-free site list); the "
+              "cartesian product enumerates every combination exactly once (NoDup, length, membership); "
+              "find returns exactly the tasks whose option equals the value; from_dict(to_dict m) = m for "
+              "any admissible key renaming and __eq__ holds in both directions. Model evaluated inside Coq "
+              "against hyruns.py on ~6000 cases (all (n,k,i) with n<=26 exhaustively), exact comparison."),
+        design="5/C19",
+        technique="Coq proof (Z arithmetic with lia/nia, list induction) + in-Coq exact correspondence",
+        note="numpy.array_split section sizes and re.search on metacharacter-free strings are modelled assumptions validated by the correspondence; json round trip is library code."),
 }
 
 NOT_YET = "check not built yet in this session; planned with the same technique (DESIGN.md section 5/8)"
